@@ -637,9 +637,17 @@ impl Exec {
                 let n = self.n.as_ref().unwrap();
                 let session = n.begin_session(if name == "cw" { driver::witness_params() } else { SessionParams::default() });
                 if name == "cw" && self.cfg.warm_up {
-                    for (k, _) in &batch {
-                        session.warm_up(*k);
+                    // every key, or (for about half of the batches) every second key of the batch; the settle gives the
+                    // warm-up worker time to finish its seeks, which the update then re-uses (a
+                    // seek it has not finished is simply repeated by the update)
+                    let every_second = batch.len() > 1 && batch.iter().map(|(k, _)| k[31] as u64 + k[0] as u64).sum::<u64>() % 2 == 1;
+                    for (i, (k, _)) in batch.iter().enumerate() {
+                        if !every_second || i % 2 == 0 {
+                            session.warm_up(*k);
+                        }
                     }
+                    std::thread::sleep(std::time::Duration::from_millis(1));
+                    self.out.goals.push(if every_second { "warm-up:every-second-key" } else { "warm-up:all-keys" });
                 }
                 let actuals = driver::Db::<B3>::actuals(&session, &batch, &self.model.kv)
                     .map_err(|m| viol("session-read", m))?;
